@@ -282,7 +282,7 @@ func (c *ntpReferenceClockSCION) MeasureClockOffset(ctx context.Context) (
 			DataplanePath: path.Empty{},
 			NextHop:       c.remoteAddr.Host,
 		}}
-	} else {
+	} else if c.pather != nil {
 		ps = c.pather.Paths(c.remoteAddr.IA)
 	}
 	return client.MeasureClockOffsetSCION(ctx, c.log, c.ntpcs[:], c.localAddr, c.remoteAddr, ps)
